@@ -53,6 +53,7 @@ func (hp *HTTPProxy) errorResponse(req *http.Request, err error) *http.Response 
 		handleTLSCertificateError,
 		handleTLSECHRejectionError,
 		handleTLSAlertError,
+		handleTLSHandshakeError,
 		handleMartianErrorStatus,
 		handleAuthenticationError,
 		handleDenyError,
@@ -196,6 +197,22 @@ func handleTLSAlertError(req *http.Request, err error) (code int, msg, label str
 		code = http.StatusBadGateway
 		msg = fmt.Sprintf("tls alert for host %q", req.Host)
 		label = "tls_alert"
+	}
+
+	return
+}
+
+// handleTLSHandshakeError handles the handshake failures that crypto/tls reports
+// as plain errors without a distinguishing type, e.g. an oversized or unexpected
+// handshake message sent by the remote host.
+func handleTLSHandshakeError(req *http.Request, err error) (code int, msg, label string) {
+	for e := err; e != nil; e = errors.Unwrap(e) {
+		if strings.HasPrefix(e.Error(), "tls: ") {
+			code = http.StatusBadGateway
+			msg = fmt.Sprintf("tls handshake failed for host %q", req.Host)
+			label = "tls_handshake"
+			break
+		}
 	}
 
 	return
